@@ -701,7 +701,9 @@ def evaluate(desc, inst_seed, tmp, stats=None):
         fails.append({'clause': 'signature', 'construct': lab,
                       'what': f'{pair[0]}.{pair[1]} at {p}: original {a} / reloaded {b} ({len(items)} place(s))',
                       'pairs': sorted({tuple(x[0]) for x in items})})
-    first_construct = sorted(by_label)[0] if by_label else 'none-in-signature'
+    # the construct blamed for behavioural differences: a structural-feature one before operations/annotations
+    first_construct = sorted(by_label, key=lambda l: (l in ('operation', 'operation-parameter', 'annotation'), l))[0] \
+        if by_label else 'none-in-signature'
     if stats is not None:
         stats['sig_nodes'] = stats.get('sig_nodes', 0) + _count_nodes(sig0)
         _count_nondefault(sig0, stats.setdefault('nondefault', {}))
